@@ -146,8 +146,8 @@ func c01Exec(c progCase, kinds []string, res *core.Result) (skip string, fail *e
 			} else if len(extra) > 0 && len(miss) == 0 {
 				sig = "extra-facts"
 			}
-			if hashKeyed(kind) && (hashCollisions(want) || hashCollisions(got)) {
-				sig = "hash-collision:" + sig
+			if hashKeyed(kind) && (hashCollisions(want) || hashCollisions(got) || rawCollisions(pi, pre)) {
+				sig = "hash-collision:" + strings.TrimPrefix(kind, "concurrent-")
 			}
 			msg := fmt.Sprintf("store %s: stored facts differ from the stratified least model: missing %v, unexpected %v", kind, miss, extra)
 			return "", &evalFail{sig, msg}
